@@ -46,6 +46,9 @@ type Solver struct {
 	symMemo   map[*Term][]int32
 	symIDs    map[string]int32
 	slowN     int
+	// cross-check: every XEvery-th decided query is re-decided by a solver of the other family
+	XEvery int
+	X      DiffResult
 
 	Queries   int
 	CacheHits int
@@ -423,6 +426,12 @@ func (s *Solver) check(pc []*Term, goal *Term, doSlice bool) Result {
 	if s.log != nil {
 		fmt.Fprintf(s.log, "; -> %s (%.3fs)\n", r, el)
 	}
+	if r != Unknown && s.XEvery > 0 && (s.Queries-1)%s.XEvery == 0 {
+		if r2 := s.crossCheck(lits, r, who); r2 != Unknown && r2 != r {
+			s.Errors = append(s.Errors, fmt.Sprintf("solver disagreement: %s said %s, the cross-checking solver said %s", who, r, r2))
+			r = Unknown
+		}
+	}
 	s.cache[key] = r
 	if d := os.Getenv("VSYM_DUMP_SLOW"); d != "" && el > 3 {
 		s.slowN++
@@ -444,6 +453,37 @@ func (s *Solver) check(pc []*Term, goal *Term, doSlice bool) Result {
 		}
 	}
 	return r
+}
+
+// crossCheck re-decides a query with a solver of the other family (z3 <-> cvc5).
+func (s *Solver) crossCheck(lits []*Term, r Result, who string) Result {
+	script := Script(lits[:len(lits)-1], lits[len(lits)-1], s.constArrs)
+	t0 := time.Now()
+	var r2 Result
+	if strings.HasPrefix(who, "cvc5") {
+		s.X.Solver = "z3-new/cvc5"
+		r2, _ = RunScript("z3-new", []string{"-in", "-T:20"}, script, 25*time.Second)
+	} else {
+		s.X.Solver = "z3-new/cvc5"
+		r2, _ = RunScript("cvc5", []string{"--lang=smt2", "--tlimit=20000"}, script, 25*time.Second)
+		if r2 == Unknown {
+			r2, _ = RunScript("cvc5", []string{"--lang=smt2", "--solve-bv-as-int=sum", "--tlimit=20000"}, script, 25*time.Second)
+		}
+	}
+	s.X.Seconds += time.Since(t0).Seconds()
+	s.X.Checked++
+	switch {
+	case r2 == Unknown:
+		s.X.Unknown++
+	case r2 == r:
+		s.X.Agree++
+	default:
+		s.X.Disagree++
+		if d := os.Getenv("VSYM_DUMP_SLOW"); d != "" {
+			os.WriteFile(fmt.Sprintf("%s/disagree_%d.smt2", d, s.X.Disagree), []byte(script), 0o644)
+		}
+	}
+	return r2
 }
 
 func (s *Solver) restart() {
